@@ -846,9 +846,14 @@ func (s *SimFS) DisarmWriteFault() { s.failNext, s.failSync, s.failMeta = false,
 // ArmSyncFault makes the next Sync of a segment file fail with EIO (nothing becomes durable by it).
 func (s *SimFS) ArmSyncFault() { s.failSync = true }
 
-// ArmMetaFault makes the k-th (1-based) write to a metadata file (*.pmt) from now on fail with ENOSPC
-// after half of it was stored.
+// ArmMetaFault makes the k-th (1-based) write to a metadata file from now on fail with ENOSPC after half of it
+// was stored. A metadata file is whatever is neither a segment, an index file nor the lock (*.pmt today; a build
+// that writes them through temporary files and renames is hit at its temporary files).
 func (s *SimFS) ArmMetaFault(k int) { s.failMeta = k }
+
+func isMetadataFileName(n string) bool {
+	return !strings.HasSuffix(n, ".psg") && !strings.HasSuffix(n, ".pix") && !strings.HasSuffix(n, "/lock") && n != "lock"
+}
 
 func (f *simFile) write(p []byte, off int64, task int) (int, error) {
 	if f.closed {
@@ -869,7 +874,7 @@ func (f *simFile) write(p []byte, off int64, task int) (int, error) {
 		f.fs.log(JEntry{Kind: JWrite, Ino: f.in.id, Name: f.name, Off: off, Data: append([]byte(nil), p...)}, task)
 		return len(p), nil
 	}
-	if f.fs.failMeta > 0 && len(p) > 0 && strings.HasSuffix(f.name, ".pmt") {
+	if f.fs.failMeta > 0 && len(p) > 0 && isMetadataFileName(f.name) {
 		f.fs.failMeta--
 		if f.fs.failMeta == 0 {
 			f.fs.FaultsFired++
